@@ -595,6 +595,10 @@ func rowsText(rows []row) string {
 }
 
 func spawn(scn, dir string, at int, extra ...string) (killed bool, out string, err error) {
+	return spawnT(scn, dir, at, 60*time.Second, extra...)
+}
+
+func spawnT(scn, dir string, at int, limit time.Duration, extra ...string) (killed bool, out string, err error) {
 	os.RemoveAll(dir)
 	os.MkdirAll(dir, 0o755)
 	cmd := exec.Command(os.Args[0], "-test.run", "^TestCheck$", "-test.timeout", "0")
@@ -618,7 +622,7 @@ func spawn(scn, dir string, at int, extra ...string) (killed bool, out string, e
 			}
 		}
 		return false, buf.String(), e
-	case <-time.After(60 * time.Second):
+	case <-time.After(limit):
 		cmd.Process.Kill()
 		return false, buf.String(), fmt.Errorf("child hung")
 	}
@@ -779,7 +783,7 @@ func EnumerateConc(r *runner.Run, name string, bound int, budget time.Duration) 
 	deadline := time.Now().Add(budget)
 	d0 := filepath.Join(scratch, "conc-"+name+"-explore")
 	nowEnv := fmt.Sprintf("VERIF_CRASH_NOW=%d", time.Now().UnixNano())
-	_, out, err := spawn("conc:"+name, d0, 0, "VERIF_CRASH_MODE=explore", nowEnv, fmt.Sprintf("VERIF_CRASH_BOUND=%d", bound),
+	_, out, err := spawnT("conc:"+name, d0, 0, budget/3+2*time.Minute, "VERIF_CRASH_MODE=explore", nowEnv, fmt.Sprintf("VERIF_CRASH_BOUND=%d", bound),
 		fmt.Sprintf("VERIF_CRASH_EXPLORE_DEADLINE=%d", time.Now().Add(budget/3).UnixNano()), "GOMAXPROCS=1")
 	if err != nil {
 		r.Infra("%s: schedule enumeration failed: %v %s", name, err, out)
